@@ -1304,11 +1304,19 @@ class ComputeGraph(MultiDiGraph):
 
         # transform expression arguments into strings
         expr_args = []
+        replacements = []
         for arg in expr.args:
             expr_part, args, _, _ = self._expr_to_str(arg, **kwargs)
-            expr_str = expr_str.replace(str(arg), expr_part)
+            replacements.append((str(arg), expr_part))
             index_args.extend(args)
             expr_args.append(expr_part)
+        # longest first, so that a short argument string cannot rewrite part of a longer sibling
+        for arg_str, expr_part in sorted(replacements, key=lambda r: -len(r[0])):
+            if arg_str not in expr_str and arg_str.startswith('-') and expr_part.startswith('-'):
+                # sympy prints a negative summand as " - x" inside a sum
+                expr_str = expr_str.replace(f"- {arg_str[1:]}", f"- {expr_part[1:]}")
+            else:
+                expr_str = expr_str.replace(arg_str, expr_part)
         var = str(expr_args[0]) if expr.args else ""
 
         # process indexing operations
